@@ -552,4 +552,30 @@ def grading_form(repo: Repo) -> RuleRun:
 
 grading_form.rule_id = "C06.GRADING-FORM"
 
-RULES = [sections, side_tables, vertex_ownership, assemble_walk, patch_state, delete_skip, geometry_label, precision, user_state_survives, grading_form]
+def geometry_redeclared(repo: Repo) -> RuleRun:
+    """'every geometry a built-in shape projects to is defined' - as the model is NOW: GeometryList.add keeps all names and a
+    geometry declared again (a sphere re-assembled after it was moved) replaces the older definition. Abstract run of add()."""
+    r = RuleRun(PROP, "C06.GEOMETRY-REDECLARED", floor=2, what="GeometryList.add keeps every name; a re-declared name takes the NEW definition")
+    add = repo.func("lists.geometry_list.GeometryList.add")
+    gl = Obj("geometry_list", cls=repo.cls("lists.geometry_list.GeometryList"))
+    gl.set("geometry", {})
+    ev = Evaluator(repo=repo, module=add.module)
+    _run(ev, add, [gl, {"sphere_a": Sym("old_a"), "plane": Sym("plane_def")}])
+    _run(ev, add, [gl, {"sphere_a": Sym("new_a"), "sphere_b": Sym("b_def")}])
+    got = gl.get("geometry")
+    r.check(isinstance(got, dict) and set(got) == {"sphere_a", "plane", "sphere_b"}, add, "all three names kept", f"after adding {{sphere_a, plane}} and {{sphere_a, sphere_b}} the geometry list holds {sorted(got) if isinstance(got, dict) else got}", add.node, key="names")
+    r.check(
+        isinstance(got, dict) and got.get("sphere_a") == Sym("new_a") and got.get("plane") == Sym("plane_def"),
+        add,
+        "re-declared sphere_a has the new definition",
+        f"a geometry declared twice keeps the definition {got.get('sphere_a') if isinstance(got, dict) else got!r}; the later declaration must win (assemble() re-adds a moved sphere's geometry under the same "
+        "name - the file would describe the sphere where it used to be)",
+        add.node,
+        key="latest-wins",
+    )
+    return r
+
+
+geometry_redeclared.rule_id = "C06.GEOMETRY-REDECLARED"
+
+RULES = [sections, side_tables, vertex_ownership, assemble_walk, patch_state, delete_skip, geometry_label, precision, user_state_survives, grading_form, geometry_redeclared]
